@@ -603,6 +603,13 @@ def run(ctx):
             a = nev.call_args(bb)
             if a[0] == ("param", nrr.path, 1) and a[1][0] == "agg":
                 slices.append((str(a[1][1]).split("::")[-1], tuple(x[1] if x[0] == "int" else None for x in a[1][2])))
+    from lib import le_u32_source
+    for bb, t in nrr.calls():
+        # the length word read byte by byte: from_le_bytes([buf[8], buf[9], buf[10], buf[11]])
+        if callee_name(t["fn"].get("path", "")) == "from_le_bytes":
+            src = le_u32_source(W, nev.call_term(bb))
+            if isinstance(src, tuple) and src and src[0] == "index" and src[1] == ("param", nrr.path, 1) and src[2][0] == "agg":
+                slices.append((str(src[2][1]).split("::")[-1], tuple(x[1] if x[0] == "int" else None for x in src[2][2])))
     want = [("Range", (len(magic), len(magic) + 4)), ("RangeFrom", (len(magic) + 4,))]
     ctx.check("framing", "request/length-and-body-offsets", sorted(set(slices)) == sorted(want), "length from buf[8..12], message from buf[12..]",
               "nonce_from_rfc_request slices %s, expected %s" % (slices, want), ctx.loc(nrr))
